@@ -595,6 +595,47 @@ pub fn run(ctx: &Ctx) -> Report {
         }
         rep.absorb(loc);
     }
+    // a define written with a sized literal carries that size, like the same literal in the source would
+    {
+        let cases: Vec<(&str, &str, Option<&str>)> = vec![
+            ("0x12", "#d val", Some("12")),
+            ("0x0012", "#d val", Some("0012")),
+            ("0x12", "#d16 val", Some("0012")),
+            ("0x0012", "#d8 val", None),
+            ("0x12", "#d 0xab @ val", Some("ab12")),
+            ("0x0012", "#d 0xab @ val", Some("ab0012")),
+            ("0b00010010", "#d val", Some("12")),
+            ("18", "#d val", None),
+            ("18", "#d 0xab @ val", None),
+            ("-0x12", "#d val", None),
+            ("0xff", "#d8 val", Some("ff")),
+            ("0x00ff", "#d16 val", Some("00ff")),
+        ];
+        let mut loc = Local::new();
+        for (lit, usage, want) in &cases {
+            let src = format!("val = 0\n{}\n", usage);
+            let def = format!("-dval={}", lit);
+            loc.eval();
+            loc.nontrivial(&(&src, &def));
+            loc.class(if want.is_some() { "define-sized-accept" } else { "define-sized-reject" });
+            let d = run::drive(&[("main.asm".to_string(), src.as_bytes().to_vec())], &["main.asm", "-q", "-f", "hexstr", "-o", "out.txt", &def], &["out.txt".to_string()]);
+            let got = d.written.iter().find(|(n, _)| n == "out.txt").map(|(_, b)| String::from_utf8_lossy(b).to_string());
+            let bad = if d.panicked.is_some() {
+                Some("panic")
+            } else {
+                match want {
+                    Some(e) if !d.ok || got.as_deref() != Some(*e) => Some("a define written as a sized literal does not behave like that literal"),
+                    None if d.ok || got.is_some() => Some("a define that has no size, or a wider one than the directive, is accepted"),
+                    _ => None,
+                }
+            };
+            loc.traces_validated += 1;
+            if let Some(b) = bad {
+                loc.violation(Violation { property: ID, key: format!("define-sized:{}", b), what: format!("{}: `{}` with {}: expected {:?}, written {:?}", b, usage, def, want, got), case: json!({"family": "define-value", "program": src, "define": def, "expected": {"accept": want.is_some(), "hex": want}, "observed": {"ok": d.ok, "out.txt": got}}) });
+            }
+        }
+        rep.absorb(loc);
+    }
     rep.extra("widths_fully_enumerated", json!(format!("0..={} (every v in [-2^N-4, 2^N+4]); {}..=256 at every boundary +-4", full_upto, full_upto + 1)));
     rep.extra("typed_cases", json!(cases.len()));
     rep.extra("data_cases", json!(dcases.len() + scases.len()));
